@@ -42,6 +42,32 @@ def written_statics(facts):
                     # writes *through* a const table element are impossible; any of these on a static is a write to it
                     out.setdefault(x['id'], []).append((f, e, kind))
                     break
+    # a mutable static that is used as an lvalue in any other way (array decay or address handed to a callee,
+    # bound to a non-const reference, member access that is not immediately read) can be written through the alias:
+    # only pure rvalue reads (the reference sits directly under an lvalue-to-rvalue conversion) are harmless
+    mutable = {i for i, s_ in sid.items() if not (s_.get('const') or s_.get('constexpr') or s_.get('tls') or s_.get('atomic'))}
+    if mutable:
+        def scan(x, parent, f, top):
+            if isinstance(x, dict):
+                if x.get('k') == 'ref' and x.get('dk') == 'global' and x.get('id') in mutable:
+                    pure = parent is not None and parent.get('k') == 'cast' and parent.get('ck') == 'LValueToRValue'
+                    if not pure and x['id'] not in out:
+                        out.setdefault(x['id'], []).append((f, top if isinstance(top, dict) and top.get('loc') else x, 'used as an lvalue (address / array decay / reference may be written through)'))
+                for k_, v_ in x.items():
+                    if k_ in ('t', 'loc', 'sloc', 'cv'):
+                        continue
+                    if isinstance(v_, (dict, list)):
+                        scan(v_, x, f, top)
+            elif isinstance(x, list):
+                for y in x:
+                    scan(y, parent, f, top)
+        for f in facts.functions:
+            for bid, B in f.blocks.items():
+                for st in B['stmts']:
+                    scan(st, None, f, st)
+                t = B.get('term')
+                if t and t.get('cond') is not None:
+                    scan(t['cond'], None, f, t['cond'])
     return sid, out
 
 
